@@ -22,7 +22,13 @@ Inductive plan :=
 | PStart    (* connect + start the nest op; the nested work (leaf) completes later *)
 | PDetach   (* like PStart, but the nest op's receiver is internal (spawn_detached, spawn_future,
                v0 spawn): a rejected reference just frees its operation, nothing to observe *)
-| PDrop.    (* drop the nest sender unstarted (or: a copy that is merely destroyed) *)
+| PFail     (* connect of the admitted nest sender throws (the nested sender's connect fails): the
+               half-built nest op releases the reference during unwinding, nothing is started; a
+               rejected (empty) nest sender connects without touching the nested sender, so it is
+               connected, started and completes with done like PStart *)
+| PDrop.    (* drop the nest sender unstarted (or: a copy that is merely destroyed; or a
+               spawn_detached / spawn_future whose operation construction throws: admitted
+               references are released during unwinding, rejected ones are not observable) *)
 
 (* program counter of one scope_reference (= one try_record_start .. record_completion) *)
 Inductive spc :=
@@ -122,9 +128,9 @@ Definition upd_sp (s : st) (v : Z) (i : nat) (pl : plan) (p : spc) : st :=
      sps := set_nth i (pl, p) (sps s); jns := jns s; joined := joined s |}.
 
 Definition after_reject (pl : plan) : spc :=
-  match pl with PStart => SRejected | PDetach | PDrop => SFin false end.
+  match pl with PStart | PFail => SRejected | PDetach | PDrop => SFin false end.
 Definition after_admit (pl : plan) : spc :=
-  match pl with PStart | PDetach => SAdmitted | PDrop => SSub end.
+  match pl with PStart | PDetach => SAdmitted | PFail | PDrop => SSub end.
 
 Definition step_sp (i : nat) (s : st) : option (st * list ev) :=
   match nth_error (sps s) i with
